@@ -106,6 +106,58 @@ func C02(c *core.Ctx) {
 	checkArrivalOrderIndependence(c, "R6/reorder", "sam.writePairwiseAlignment")
 	c.Assumption("records of one query are non-conflicting: no two records insert at the same reference position (groups violating this are skipped)")
 	checkCigarTables(c, "R1", func(t cigarTable) bool { return t.withRef })
+	c02Rows(c)
+	c15TrimAlignment(c)
+	c02Writer(c)
+	checkPoolOrder(c, "R6", "pkg/sam", "ToPairAlign")
+}
+
+// c02Writer: the stdout branch of the pairwise writer on one symbolic pair.
+func c02Writer(c *core.Ctx) {
+	fn := c.LookupFunc("pkg/sam", "writePairwiseAlignment")
+	pairT := namedType(c, "pkg/sam", "alignPair")
+	if fn == nil || pairT == nil {
+		c.Und("R6/writePairwiseAlignment", token.NoPos, "UNRESOLVED anchor sam.writePairwiseAlignment")
+		return
+	}
+	var bad []string
+	for _, omitRef := range []bool{false, true} {
+		for _, w := range []int{-1, 3} {
+			ev := newEval(c)
+			writes := captureWrites(ev)
+			pair := absValue(pairT, "p", eval.K(0)).(*eval.StructVal)
+			pair.F["ref"] = bytesVal("AC-GTTGA")
+			pair.F["query"] = bytesVal("ACGTNNNN")
+			pair.F["refname"] = eval.S("REF")
+			pair.F["queryname"] = eval.S("q/1")
+			pair.F["idx"] = eval.K(0)
+			done := &eval.ChanVal{Name: "done"}
+			errs := &eval.ChanVal{Name: "err"}
+			_, err := ev.CallFunc(fn, eval.S("stdout"), eval.K(int64(w)), &eval.ChanVal{Name: "in", Feed: []eval.Value{pair}}, done, errs, omitRef)
+			if err != nil {
+				bad = append(bad, "undecided: "+err.Error())
+				continue
+			}
+			var sb strings.Builder
+			for _, s := range *writes {
+				sb.WriteString(s.String())
+			}
+			want := ""
+			if !omitRef {
+				want += ">REF\n" + wrapSpec("AC-GTTGA", w)
+			}
+			want += ">q/1\n" + wrapSpec("ACGTNNNN", w)
+			if sb.String() != want || len(done.Sent) != 1 || len(errs.Sent) != 0 {
+				bad = append(bad, fmt.Sprintf("omit-reference=%v wrap=%d -> %q, want %q", omitRef, w, sb.String(), want))
+			}
+		}
+	}
+	c.Ob("R6/writePairwiseAlignment/stdout-layout", len(bad) == 0, fn.Pos(), "%s", first(bad, 3))
+}
+
+// c02Rows: the (reference row, query row) pairs of one- and two-record queries against an independent
+// construction (shared with C04, C05 and C11: sam variants calls mutations on exactly these rows).
+func c02Rows(c *core.Ctx) {
 	ref := "ACGTTGA"
 	groups := groupsFor(len(ref), false)
 	var badSingle, badMulti, badSkip []string
@@ -154,50 +206,4 @@ func C02(c *core.Ctx) {
 	c.Ob("R2/multi-record-queries", len(badMulti) == 0, funcPos(c, "pkg/sam", "blockToSeqPair"), "%s", first(badMulti, 3))
 	c.Ob("R2/skip-insertions-equals-toMultiAlign-pad", len(badSkip) == 0, pos, "%s", first(badSkip, 3))
 	c.Sample(map[string]string{"rule": "R2", "group": "q@1:2M1I1M:ACGT", "reference": ref, "ref_row": "AC-GTTGA", "query_row": "ACGTNNNN"})
-	c15TrimAlignment(c)
-	c02Writer(c)
-	checkPoolOrder(c, "R6", "pkg/sam", "ToPairAlign")
-}
-
-// c02Writer: the stdout branch of the pairwise writer on one symbolic pair.
-func c02Writer(c *core.Ctx) {
-	fn := c.LookupFunc("pkg/sam", "writePairwiseAlignment")
-	pairT := namedType(c, "pkg/sam", "alignPair")
-	if fn == nil || pairT == nil {
-		c.Und("R6/writePairwiseAlignment", token.NoPos, "UNRESOLVED anchor sam.writePairwiseAlignment")
-		return
-	}
-	var bad []string
-	for _, omitRef := range []bool{false, true} {
-		for _, w := range []int{-1, 3} {
-			ev := newEval(c)
-			writes := captureWrites(ev)
-			pair := absValue(pairT, "p", eval.K(0)).(*eval.StructVal)
-			pair.F["ref"] = bytesVal("AC-GTTGA")
-			pair.F["query"] = bytesVal("ACGTNNNN")
-			pair.F["refname"] = eval.S("REF")
-			pair.F["queryname"] = eval.S("q/1")
-			pair.F["idx"] = eval.K(0)
-			done := &eval.ChanVal{Name: "done"}
-			errs := &eval.ChanVal{Name: "err"}
-			_, err := ev.CallFunc(fn, eval.S("stdout"), eval.K(int64(w)), &eval.ChanVal{Name: "in", Feed: []eval.Value{pair}}, done, errs, omitRef)
-			if err != nil {
-				bad = append(bad, "undecided: "+err.Error())
-				continue
-			}
-			var sb strings.Builder
-			for _, s := range *writes {
-				sb.WriteString(s.String())
-			}
-			want := ""
-			if !omitRef {
-				want += ">REF\n" + wrapSpec("AC-GTTGA", w)
-			}
-			want += ">q/1\n" + wrapSpec("ACGTNNNN", w)
-			if sb.String() != want || len(done.Sent) != 1 || len(errs.Sent) != 0 {
-				bad = append(bad, fmt.Sprintf("omit-reference=%v wrap=%d -> %q, want %q", omitRef, w, sb.String(), want))
-			}
-		}
-	}
-	c.Ob("R6/writePairwiseAlignment/stdout-layout", len(bad) == 0, fn.Pos(), "%s", first(bad, 3))
 }
